@@ -23,7 +23,8 @@ PENDING_TEXT = {
             "ShapeVerif.sources_span_faithful", "ShapeVerif.tokenize_ok", "ShapeVerif.parse_leaves",
             "ShapeVerif.classifyArray_never_fails", "ShapeVerif.classifyArrayV_total",
             "ShapeVerif.rejectDiagnostics_no_panic", "ShapeVerif.isSuperset_never_errs", "ShapeVerif.work_bounds"],
-    "C07": ["ShapeVerif.rerender_same_shape", "ShapeVerif.infer_member_order",
+    "C07": ["ShapeVerif.render_independent", "ShapeVerif.same_document_same_result",
+            "ShapeVerif.rerender_same_shape", "ShapeVerif.infer_member_order",
             "ShapeVerif.infer_payload_independent", "ShapeVerif.infer_factors", "ShapeVerif.infer_repetition",
             "ShapeVerif.infer_scalar_forms"],
 }
@@ -146,9 +147,10 @@ PROPS = {
     },
     "C01": {
         "module": "ShapeVerif.Props.C01",
+        "extra_modules": ["ShapeVerif.Props.TextLevel"],
         "theorems": ["ShapeVerif.sources_sound", "ShapeVerif.one_more", "ShapeVerif.merger_never_evicts",
                      "ShapeVerif.infer_sound_C01", "ShapeVerif.d3_counterexample",
-                     "ShapeVerif.merger_wf", "ShapeVerif.infer_wf"],
+                     "ShapeVerif.merger_wf", "ShapeVerif.infer_wf", "ShapeVerif.sources_sound_text", "ShapeVerif.fromSources_reads"],
         "statements": {
             "sources_sound": "h ≠ [] → (∀ d ∈ h, inferDoc d succeeds) → (∀ d ∈ h, conflictFree d) → ∃ s, fromSourcesDoc h = ok s ∧ s.wf ∧ ∀ d ∈ h, admits s d",
             "one_more": "fromSourcesDoc h = ok s → fromSourcesDoc (h ++ [d]) = ok s' → admits s x → admits s' x   (no side condition)",
@@ -156,7 +158,7 @@ PROPS = {
             "d3_counterexample": "[{\"a\":1},{\"a\":\"s\"}] is inferred as Array<Object{a: Number}>, which does not admit it (negation of the full statement on the known-finding witness)",
         },
         "partial": ["sources_sound carries the hypothesis conflictFree (the exact complement of known finding D3); the full statement is refuted by d3_counterexample",
-                    "text level (JsonShape::from_sources on strings) composes with the parser model (C04); until then the text layer is covered by the correspondence/oracle on real texts"],
+                    "text level: sources_sound_text states the same about the strings given to from_sources, through accept_iff (C04): every accepted source text has a reading (a cut into RFC lexemes and the document they derive) that the shape admits"],
         "rule": "histories of 1-5 type-directed random documents (nesting <= 4, empty containers, arrays of objects with missing keys, tuples, repeated/re-rendered/tweaked documents), every prefix of each history, plus merger on all ordered pairs of the small-scope shape universe and single-document inference on random documents. Oracle: admits(from_sources(h), d) for every d in h and witness monotonicity between consecutive prefixes. Non-trivial = container shape involved.",
         "assumptions": ["documents are compared as parsed by the reference RFC 8259 parser (Ref/Rfc8259.lean); member names without escapes"],
         "level_text": "sources_sound (every source is a member of the inferred shape, any order/repetition) and one_more (adding a document never evicts) are Lean theorems over all histories, resting on merger_sound/merger_wf/infer_sound/infer_wf proved by induction over all shapes/documents. sources_sound is stated under conflictFree, the exact complement of recorded known finding D3 (pinned by the repo's own snapshot test); the negation on the D3 witness is proved too. merger, inference and from_sources of the model are compared with the real code on every run, and membership is re-checked on the real code's results with the independent `admits`.",
@@ -164,16 +166,17 @@ PROPS = {
     },
     "C03": {
         "module": "ShapeVerif.Props.C03",
+        "extra_modules": ["ShapeVerif.Props.TextLevel"],
         "theorems": ["ShapeVerif.samples_accepted", "ShapeVerif.superset_of_sample", "ShapeVerif.self_accepted",
                      "ShapeVerif.keeps", "ShapeVerif.newSample", "ShapeVerif.sub_trans_plain",
-                     "ShapeVerif.merger_tupleFlat", "ShapeVerif.infer_plain"],
+                     "ShapeVerif.merger_tupleFlat", "ShapeVerif.infer_plain", "ShapeVerif.superset_of_sample_text"],
         "statements": {
             "samples_accepted": "fromSourcesDoc h = ok s → ∀ d ∈ h, ∃ sd, inferDoc d = ok sd ∧ isSubset sd s = true   (all histories, no side condition)",
             "keeps": "s.plain → a.wf → b.wf → a.tupleFlat → b.plain → isSubset s a → isSubset s (merger a b)",
             "newSample": "b.plain → a.wf → b.wf → isSubset b (merger a b)",
             "self_accepted": "s.wf → isSubset s s",
         },
-        "partial": ["is_superset / is_superset_checked on *texts* compose samples_accepted with the parser (C04); on document trees they are superset_of_sample"],
+        "partial": ["text level: superset_of_sample_text — for source texts with readings, from_sources(texts) = ok s implies is_superset(s, t) = true and is_superset_checked(s, t) = Ok(true) for every source text t"],
         "rule": "histories of 1-5 type-directed random documents (as C01) through p_c03: from_sources(h), then for every i the three API calls from_str(d_i).is_subset(S), S.is_superset(d_i), S.is_superset_checked(d_i)==Ok(true), and S.is_subset(S); evaluated on the real code and on the model. Non-trivial = history of >= 2 documents with a container.",
         "assumptions": [],
         "level_text": "samples_accepted is a Lean theorem over all histories of document trees: every single-document shape is reported as a subset of the merged shape. It rests on two lemmas proved for all shapes by induction over the 64 arms of merger (keeps, newSample), transitivity of is_subset into OneOf-free shapes, and invariants (wf, tupleFlat, plain) proved preserved. The proof only closes on the code repaired by the D6 fix; the pre-fix witnesses are kept as corpus entries. is_subset, merger and from_sources are compared with the real code on every run and the three API calls are re-evaluated on the real code.",
@@ -217,15 +220,16 @@ PROPS = {
     },
     "C07": {
         "module": "ShapeVerif.Props.C07",
+        "extra_modules": ["ShapeVerif.Props.TextLevel"],
         "theorems": PENDING_TEXT["C07"],
         "statements": {
             "rerender_same_shape": "Rerender d d' → ∀ s, inferDoc d = ok s ↔ inferDoc d' = ok s, where Rerender is the least equivalence closed under nesting (one array element / one member value at a time) containing: any two numbers, any two strings, any two booleans; any permutation of an object's members; any two numbers n+1, m+1 of copies in an array of copies",
             "infer_member_order": "ms.Perm ms' → inferDoc (obj ms) = ok s → inferDoc (obj ms') = ok s (also with repeated member names of equal value shapes)",
         },
-        "partial": ["proved on document trees (rerender_same_shape covers payloads, lexical forms of scalars as far as they are payloads of the tree, member order, number of copies, all under nesting); the lift to texts (insignificant whitespace, the lexical form of numbers/strings/escapes) rests on the text-layer model being compared with the code: that the lexer/parser produce the same tree for two renderings is not a theorem"],
+        "partial": ["render_independent / same_document_same_result lift rerender_same_shape to strings through accept_iff (C04): two JSON texts within the depth bound whose documents are equal (they differ in insignificant whitespace, in the lexical form of numbers and strings, in escapes of member names denoting the same name) or Rerender-related (member order, number of copies, payloads) get the same result from from_str"],
         "rule": "for random documents d: three re-renderings r(d) each (other scalars of the same kind, other number/string lexical forms incl. escapes, reversed/swapped members, a same-shaped element appended to homogeneous arrays, four whitespace styles incl. CRLF and lone CR); from_str(d) == from_str(r(d)) on the real code and on the model. Non-trivial = container.",
         "assumptions": [],
-        "level_text": "rerender_same_shape is a Lean theorem over all document trees: the inferred shape (and rejection) is invariant under every rewrite the property lists — scalar payloads, member order, number of copies — applied anywhere in the document, in any combination; the text layer is modelled and compared with the code, and the metamorphic equalities are evaluated on the real from_str.",
+        "level_text": "render_independent is a Lean theorem over all pairs of JSON texts (strings) within the depth bound, and rerender_same_shape over all document trees: the inferred shape (and rejection) is invariant under every rewrite the property lists — scalar payloads, member order, number of copies — applied anywhere in the document, in any combination; the text layer is modelled and compared with the code, and the metamorphic equalities are evaluated on the real from_str.",
         "level_note": "Trusted: Lean kernel; models (differential testing).",
     },
     "C06": {
@@ -281,9 +285,10 @@ PROPS = {
     },
     "C17": {
         "module": "ShapeVerif.Props.C17",
+        "extra_modules": ["ShapeVerif.Props.TextLevel"],
         "theorems": ["ShapeVerif.infer_null", "ShapeVerif.infer_bool", "ShapeVerif.infer_number",
                      "ShapeVerif.infer_string", "ShapeVerif.infer_array", "ShapeVerif.infer_array_elements",
-                     "ShapeVerif.infer_object", "ShapeVerif.mapGet_mergeObjectElements"],
+                     "ShapeVerif.infer_object", "ShapeVerif.mapGet_mergeObjectElements", "ShapeVerif.fromStr_of_reads"],
         "statements": {
             "infer_array": "with es the element shapes: [] ↦ Option<Array<Null>>; all equal ↦ Array<es.head>; differently shaped non-objects ↦ Tuple es; differently shaped objects ↦ Array<Object M> with M[k] = specLookup k es (shape if in every element, optional form if in some)",
             "infer_object": "inferDoc (obj ms) = ok s → s = Object c false with keys exactly the member names, c[k] = inferDoc of the member's value",
@@ -295,11 +300,12 @@ PROPS = {
     },
     "C02": {
         "module": "ShapeVerif.Props.C02",
-        "theorems": ["ShapeVerif.subset_sound"],
+        "extra_modules": ["ShapeVerif.Props.TextLevel"],
+        "theorems": ["ShapeVerif.subset_sound", "ShapeVerif.superset_sound_text"],
         "statements": {
             "subset_sound": "∀ a b, b.wf → isSubset a b = true → ∀ d, admits a d → admits b d",
         },
-        "partial": ["superset_sound (text level: is_superset(s, t) = true → t parses to a document admitted by s) is covered by the oracle only until the parser model lands; see DESIGN §5 C02"],
+        "partial": ["text level: superset_sound_text — is_superset(s, t) = true or is_superset_checked(s, t) = Ok(true) implies t is a JSON text within the depth bound whose document s admits (for conflict-free documents; D3 is the complement)"],
         "rule": "subset on all ordered pairs of the small-scope universe + random related pairs (widenings, merges, mutations); for every pair the code answers true, witness documents drawn from meaning(a) are checked against admits(b); (shape,text) pairs from inferred histories for is_superset / is_superset_checked, each true answer checked with admits. Non-trivial = answer true with a container on either side.",
         "assumptions": [],
         "level_text": "subset_sound is a Lean theorem for every pair of shapes (any constructor, both flags, any nesting): isSubset a b = true implies every document admitted by a is admitted by b, with `admits` an independent reference semantics. The consequence for is_superset on texts is checked by an oracle on the real code (admits on every true answer) and has one recorded known finding (D3 class).",
